@@ -259,8 +259,12 @@ func (x *Exec) staticCall(st *State, fn *ssa.Function, binds []Val, args []Val, 
 	}
 	// no contract: havoc the callee's computed write set, results unknown
 	ms := p.modSet(x.c, fn)
+	pre := st.clone()
 	x.havocMods(st, ms)
 	x.c.note("callee without contract havocked: " + key)
+	if res, det := x.detResults(pre, fn, args, resT, ms); det {
+		return res
+	}
 	return x.results(st, resT, "r_"+san(fn.Name()))
 }
 
@@ -495,7 +499,10 @@ func (x *Exec) applyContract(st *State, fc *FuncContract, fn *ssa.Function, bind
 	}
 	ms := x.p.modSet(c, fn)
 	x.havocMods(st, ms)
-	res := x.results(st, resT, "r_"+san(fn.Name()))
+	res, det := x.detResults(pre, fn, args, resT, ms)
+	if !det {
+		res = x.results(st, resT, "r_"+san(fn.Name()))
+	}
 	x.assumeEnsures(st, pre, fc, fn, vars, free, res, resT)
 	return res
 }
@@ -674,6 +681,12 @@ func (x *Exec) externalCall(st *State, fn *ssa.Function, args []Val, pos token.P
 		x.assumeEnsures(st, pre, fc, fn, vars, nil, res, resT)
 		c.note("trusted contract: " + key)
 		return res
+	}
+	// small loop-free functions of the geometry package the module depends on
+	// are executed from their source (module cache) instead of being trusted
+	if fn.Pkg != nil && strings.HasPrefix(fn.Pkg.Pkg.Path(), "seehuhn.de/go/geom/") && len(fn.Blocks) > 0 && len(findLoops(fn)) == 0 && x.depth < 8 {
+		c.note("inlined from source (module cache): " + key)
+		return x.inlineCall(st, fn, nil, args, resT, x.ghost)
 	}
 	// default for unknown external functions
 	callback := false
